@@ -462,15 +462,37 @@ class History:
                     max_live=max(len(self.live_in(hi, lo)) for hi, lo in zip(self.bounds[:-1], self.bounds[1:])))
 
 # ------------------------------------------------------------------------------------------------- random dadi programs (export)
-def random_program(rng, max_pops=5, n_steps=None, allow_admix=True, p_reorder=1.0, final_reorder=0.3):
+def draw_order(rng, d):
+    """a reordering of d axes (0-based).  Swaps are their own inverse and cannot tell `new[i] = old[order[i]]` from its inverse:
+    from three populations on most draws are NOT involutions (3-cycles; for d = 4, 5 also full d-cycles and other non-involutions)."""
+    ident = list(range(d))
+    if d < 3 or rng.random() < 0.2:
+        return rng.permutation(d).tolist()
+    if d >= 4 and rng.random() < 0.4:                      # a full d-cycle
+        names = rng.permutation(d).tolist()
+        o = [0] * d
+        for a, b in zip(names, names[1:] + names[:1]): o[a] = b
+        return o
+    for _ in range(50):
+        o = rng.permutation(d).tolist()
+        if [o[o[i]] for i in range(d)] != ident: return o
+    return [(i + 1) % d for i in range(d)]
+
+def is_involution(o):
+    return [o[o[i]] for i in range(len(o))] == list(range(len(o)))
+
+def random_program(rng, max_pops=5, n_steps=None, allow_admix=True, p_reorder=1.0, final_reorder=0.3, clean=False):
     """a neutral dadi program of 1..max_pops populations from splits, admixture, pulses, removal, reordering and constant /
-    exponential / linear size changes with migration; root relative size `nu0` (1 mostly)."""
+    exponential / linear size changes with migration; root relative size `nu0` (1 mostly).
+    clean: no admixture and no pulse directly followed by a new population (programs the open finding F-16f does not touch)."""
+    if clean: allow_admix = False
     n_steps = int(rng.integers(3, 9)) if n_steps is None else n_steps
     nu0 = 1.0 if rng.random() < 0.6 else round_sig(loguniform(rng, 0.4, 2.5), 3)
     ops = [dict(op='phi1d', nu=nu0)]
     d = 1
-    def integ(d):
+    def integ(d, distinct=False):
         T = round_sig(loguniform(rng, 0.01, 0.12), 3)
+        if distinct: T = round_sig(loguniform(rng, 0.04, 0.12), 3)
         nus = []
         for _ in range(d):
             r = rng.random()
@@ -480,14 +502,22 @@ def random_program(rng, max_pops=5, n_steps=None, allow_admix=True, p_reorder=1.
             if 0.8 < n1 / n0 < 1.25: n1 = round_sig(n0 * (1.6 if rng.random() < 0.5 else 0.6), 3)
             nus.append(('c', n0) if r < 0.5 else (('e', n0, n1) if r < 0.8 else ('l', n0, n1)))
         M = [[0.0 if i == j or rng.random() < 0.5 else round_sig(float(rng.uniform(0.1, 3.0)), 3) for j in range(d)] for i in range(d)]
+        if distinct and d >= 2:
+            # the epoch after a reordering must tell the populations apart: well separated sizes, asymmetric migration
+            base = round_sig(loguniform(rng, 0.25, 0.5), 3)
+            sizes = [round_sig(base * (1.8 ** k), 3) for k in range(d)]
+            rng.shuffle(sizes)
+            nus = [(s[0], sizes[k]) if s[0] == 'c' else (s[0], sizes[k], round_sig(sizes[k] * (1.7 if rng.random() < 0.5 else 0.55), 3)) for k, s in enumerate(nus)]
+            M = [[0.0 if i == j else round_sig(0.2 + 0.45 * ((3 * i + 5 * j) % 7), 3) for j in range(d)] for i in range(d)]
         return dict(op='integrate', T=T, nu=nus, M=M, frozen=[False] * d)
     ops.append(integ(1))
-    last_integ = True
     for _ in range(n_steps):
         opts = []
         if d < max_pops: opts += ['split', 'split'] + (['admix'] if allow_admix else ['split'])
         if d >= 2: opts += ['pulse', 'pulse', 'remove'] + (['reorder'] if rng.random() < p_reorder else [])
         k = opts[int(rng.integers(len(opts)))]
+        if clean and k == 'split' and ops[-1]['op'] == 'pulse':
+            ops.append(integ(d))                                              # never a pulse directly followed by a new population
         if k == 'split':
             p = int(rng.integers(d)); ops.append(dict(op='newpop', props=[1.0 if i == p else 0.0 for i in range(d)])); d += 1
         elif k == 'admix':
@@ -507,14 +537,15 @@ def random_program(rng, max_pops=5, n_steps=None, allow_admix=True, p_reorder=1.
             if ops[-1]['op'] != 'integrate': ops.append(integ(d))          # not at the instant of a pulse
             ops.append(dict(op='remove', axis=int(rng.integers(d)))); d -= 1
         elif k == 'reorder':
-            o = rng.permutation(d).tolist()
-            ops.append(dict(op='reorder', order=o))
+            ops.append(dict(op='reorder', order=draw_order(rng, d)))
+            ops.append(integ(d, distinct=True))
+            continue
         # a new or a removed population is followed by an integration (a deme of zero duration cannot be exported, and the
-        # order of events at one instant is not a property of the history); pulses / reorderings may pile up
+        # order of events at one instant is not a property of the history); pulses may pile up
         if k in ('split', 'admix', 'remove') or rng.random() < 0.75:
             ops.append(integ(d))
     if ops[-1]['op'] != 'integrate':
         ops.append(integ(d))
     if d >= 2 and rng.random() < final_reorder:
-        ops.append(dict(op='reorder', order=rng.permutation(d).tolist()))      # no integration follows: no splitting effect
+        ops.append(dict(op='reorder', order=draw_order(rng, d)))      # no integration follows: no splitting effect
     return ops, d
